@@ -620,6 +620,23 @@ void abtv_yield(const char *file, int line)
     sim_sched_point('Y', file, line);
 }
 
+/* Variant VP: libabt is compiled by clang with -fsanitize-coverage=trace-loads,trace-stores, so
+ * every plain load and store of the library calls in here.  Every so many accesses (the gap is
+ * drawn from a stream of its own, so recording and replaying draw alike) the access becomes a
+ * scheduling point: another stream may then run between two non-atomic accesses, e.g. in the
+ * middle of a critical section that lost its lock, or between two halves of an update that
+ * only the owning stream is supposed to make. */
+void sim_plain_access(void)
+{
+    if (G.frozen || G.in_cb || !G.plain_mean)
+        return;
+    if (--G.plain_countdown > 0)
+        return;
+    G.plain_countdown = 1 + (int64_t)(splitmix(&G.plain_rng) % (2 * (uint64_t)G.plain_mean));
+    G.plain_points++;
+    sim_sched_point('m', "plain-access", 0);
+}
+
 /* M-owner: a ULT context may be entered only if no sim thread currently owns it */
 #define OWN_N 2048
 static const void *own_ctx[OWN_N];
@@ -852,6 +869,12 @@ void sim_run_begin(void)
         G.rs[i] = mix64(G.seed * 0x9e3779b97f4a7c15ULL + (uint64_t)(i + 1) * 0xd1b54a32d192ed03ULL);
     G.fp = 0xcbf29ce484222325ULL;
     G.sig = 0xcbf29ce484222325ULL;
+    {
+        static const uint32_t means[] = { 16, 64, 256, 1024 };
+        G.plain_rng = mix64(G.seed ^ 0x706c61696e616363ULL);
+        G.plain_mean = means[splitmix(&G.plain_rng) & 3];
+        G.plain_countdown = 1 + (int64_t)(splitmix(&G.plain_rng) % (2 * (uint64_t)G.plain_mean));
+    }
     G.now = 1000000000ULL * 1000; /* arbitrary epoch: 1000 s */
     G.fault_mask = (1u << SIM_F_FUTEX_SPURIOUS) | (1u << SIM_F_COND_SPURIOUS) | (1u << SIM_F_NANOSLEEP_EARLY) | (1u << SIM_F_STALL) |
                    (1u << SIM_F_SLOW_NODE) | (1u << SIM_F_TARGET_DELAY);
